@@ -332,11 +332,27 @@ def run(case):
     # the same base object used again after its path was changed through the public attributes: the result may only depend on
     # what the base *is now* (its to_text()), never on an earlier navigate() from the same object
     kinds = ['path_parts', 'normalize', 'path', 'host']
-    for mi, ref in enumerate(refs):
+    qkinds = ['query_add', 'query_clear', 'query_del', 'query_set', 'fragment']
+    plan = [(ref, kinds[(len(case['norm_parts']) + mi) % len(kinds)]) for mi, ref in enumerate(refs)]
+    # same-document and query-only references after the base's query / fragment was edited in place
+    plan += [(ref, qkinds[(len(case['norm_parts']) + len(refs) + j) % len(qkinds)]) for j, ref in enumerate(['#zz', '', '?n=1', 'x'])]
+    for ref, how in plan:
         b = URL(bt)
         w = _call(b.navigate, ref)
-        how = kinds[(len(case['norm_parts']) + mi) % len(kinds)]
-        if how == 'path_parts':
+        if how == 'query_add':
+            b.query_params.add('added', '1')
+        elif how == 'query_clear':
+            b.query_params.clear()
+        elif how == 'query_del':
+            if len(b.query_params):
+                del b.query_params[list(b.query_params.keys())[0]]
+            else:
+                b.query_params['only'] = 'v'
+        elif how == 'query_set':
+            b.query_params[(list(b.query_params.keys()) or ['k'])[0]] = 'set'
+        elif how == 'fragment':
+            b.fragment = 'newfrag'
+        elif how == 'path_parts':
             b.path_parts = tuple([''] + [p for p in case['norm_parts'] if p not in ('.', '..')] + ['zz', 'last'])
         elif how == 'normalize':
             b.path_parts = tuple(list(b.path_parts) + ['sub', '..'])
